@@ -1,7 +1,7 @@
 """TLC invocation helpers for trace validation (one pass per trace file, all violations reported)."""
 import os, re, json, shutil, subprocess
 
-V = '/verif'
+V = os.path.dirname(os.path.dirname(os.path.realpath(__file__)))
 JAVA = ['java', '-XX:+UseParallelGC', '-cp',
         '/opt/veriftools/tla/tla2tools.jar:/opt/veriftools/tla/CommunityModules-deps.jar', 'tlc2.TLC']
 
